@@ -18,10 +18,10 @@ pub struct ClientLog(pub Vec<(SK, u32, u32, Option<Entity>)>);
 pub struct MismatchSeen(pub u32);
 /// Client-direction emissions performed in `Update` of the next client frame (as game logic would).
 #[derive(Resource, Default)]
-pub struct CEmitQueue(pub Vec<(CK, u32, Option<Entity>)>);
+pub struct CEmitQueue(pub Vec<(CK, u32, Option<Entity>, Option<Entity>)>);
 /// (seq, expected to be sent, server entity it refers to)
 #[derive(Resource, Default)]
-pub struct CEmitLog(pub Vec<(u32, bool, Option<Entity>)>);
+pub struct CEmitLog(pub Vec<(u32, bool, Option<Entity>, Option<Entity>)>);
 /// What the server app observed: kind, seq, sender, entity.
 #[derive(Resource, Default)]
 pub struct ServerLog(pub Vec<(CK, u32, Entity, Option<Entity>)>);
@@ -39,10 +39,12 @@ pub struct TickLog(pub Vec<u32>);
 
 fn client_emit(world: &mut World) {
     let q = std::mem::take(&mut world.resource_mut::<CEmitQueue>().0);
-    for (kind, seq, sref) in q {
+    for (kind, seq, sref, sref2) in q {
         let cref = sref.and_then(|s| world.resource::<ServerEntityMap>().to_client().get(&s).copied());
+        let cref2 = sref2.and_then(|s| world.resource::<ServerEntityMap>().to_client().get(&s).copied());
         let mut expect = true;
         let mut refent = None;
+        let mut refent2 = None;
         match kind {
             CK::Ev => {
                 world.send_event(CEv(seq));
@@ -69,6 +71,11 @@ fn client_emit(world: &mut World) {
                 }
             },
             CK::Trig => match cref {
+                Some(ce) if cref2.is_some_and(|c2| c2 != ce) => {
+                    world.client_trigger_targets(CTrig(seq), vec![ce, cref2.unwrap()]);
+                    refent = sref;
+                    refent2 = sref2;
+                }
                 Some(ce) => {
                     world.client_trigger_targets(CTrig(seq), ce);
                     refent = sref;
@@ -78,7 +85,7 @@ fn client_emit(world: &mut World) {
                 }
             },
         }
-        world.resource_mut::<CEmitLog>().0.push((seq, expect, refent));
+        world.resource_mut::<CEmitLog>().0.push((seq, expect, refent, refent2));
     }
 }
 
